@@ -89,21 +89,27 @@ def discharge(ctx, name, clause, kind="check", detail=""):
     t0 = time.time()
     neg = z3.Not(clause)
     s = ctx.solver
-    s.push()
-    s.set("timeout", core.SOLVER_TIMEOUT_MS if not ctx.opts.get("fast") else 20_000)
-    s.add(neg)
-    r = s.check()
-    model = s.model() if r == z3.sat else None
-    reason = s.reason_unknown() if r == z3.unknown else ""
-    smt2 = None
+    fast = bool(ctx.opts.get("fast"))
     want_sample = getattr(ctx, "sample_left", 1) > 0 and kind in ("check", "post", "inv_preserved", "lemma")
-    if r != z3.unsat or ctx.opts.get("keep_smt2") or want_sample:
-        try:
-            smt2 = s.to_smt2()
-        except Exception:  # noqa: BLE001
-            smt2 = None
-    s.pop()
-    s.set("timeout", core.FEAS_TIMEOUT_MS)
+
+    def z3_try(timeout_ms):
+        s.push()
+        s.set("timeout", timeout_ms)
+        s.add(neg)
+        r_ = s.check()
+        m_ = s.model() if r_ == z3.sat else None
+        why = s.reason_unknown() if r_ == z3.unknown else ""
+        smt = None
+        if r_ != z3.unsat or ctx.opts.get("keep_smt2") or want_sample:
+            try:
+                smt = s.to_smt2()
+            except Exception:  # noqa: BLE001
+                smt = None
+        s.pop()
+        s.set("timeout", core.FEAS_TIMEOUT_MS)
+        return r_, m_, why, smt
+
+    r, model, reason, smt2 = z3_try(8_000 if fast else 15_000)
     ms = (time.time() - t0) * 1000
     STATS["z3_ms"] += ms
     path = ctx.path()
@@ -117,18 +123,28 @@ def discharge(ctx, name, clause, kind="check", detail=""):
         m = small or model
         return core.Obligation(name, "refuted", ms, "z3", model=m, path=path, kind=kind, detail=detail, smt2=smt2,
                                witness=_model_witness(ctx, m))
-    # unknown: (a) other solver on the full query, (b) ground instantiation for a candidate model
-    st, cms = cvc5_check(smt2, timeout_s=60 if not ctx.opts.get("fast") else 20)
+    # z3 says unknown (quantifiers / non-linear arithmetic).
+    #  (a) ground instantiation gives a *candidate* counter-model quickly,
+    #  (b) cvc5 on the full query may still prove it (then the candidate was an artefact of the weakening),
+    #  (c) z3 once more with the long budget.
+    cand = stage2(ctx, neg)
+    st, cms = cvc5_check(smt2, timeout_s=20 if (fast or cand is not None) else 60)
     if st == "unsat":
         return core.Obligation(name, "discharged", ms + cms, "cvc5", path=path, kind=kind,
                                detail=(detail + f" z3:unknown({reason})").strip())
-    cand = stage2(ctx, neg)
     if cand is not None:
-        return core.Obligation(name, "refuted-candidate", ms + cms, "z3-ground", model=cand, path=path, kind=kind,
-                               detail=detail, smt2=smt2, witness=_model_witness(ctx, cand))
+        return core.Obligation(name, "refuted-candidate", (time.time() - t0) * 1000, "z3-ground", model=cand,
+                               path=path, kind=kind, detail=detail, smt2=smt2, witness=_model_witness(ctx, cand))
     if st == "sat":
         return core.Obligation(name, "refuted", ms + cms, "cvc5", path=path, kind=kind, detail=detail, smt2=smt2)
-    return core.Obligation(name, "unknown", ms + cms, "z3+cvc5", path=path, kind=kind,
+    r2, model2, reason2, _ = z3_try(core.SOLVER_TIMEOUT_MS if not fast else 20_000)
+    tot = (time.time() - t0) * 1000
+    if r2 == z3.unsat:
+        return core.Obligation(name, "discharged", tot, "z3", path=path, kind=kind, detail=detail)
+    if r2 == z3.sat:
+        return core.Obligation(name, "refuted", tot, "z3", model=model2, path=path, kind=kind, detail=detail, smt2=smt2,
+                               witness=_model_witness(ctx, model2))
+    return core.Obligation(name, "unknown", tot, "z3+cvc5", path=path, kind=kind,
                            detail=(detail + f" z3:{reason} cvc5:{st}").strip(), smt2=smt2)
 
 
